@@ -91,3 +91,37 @@ def receiver_kwargs_via_cli(argv, broker):
     kw.pop("executor", None)
     kw.pop("broker", None)
     return kw
+
+
+class _CaptureOnce(Receiver):
+    """for run_receiver_task: records the keyword arguments and ends the caller's `while True` loop"""
+    captured = None
+
+    def __init__(self, **kw):          # noqa: super().__init__ deliberately not called
+        type(self).captured = kw
+
+    async def listen(self, finish_event):
+        raise real_asyncio.CancelledError
+
+
+def receiver_kwargs_via_api(api_kwargs, broker):
+    """The programmatic path: the real `taskiq.api.run_receiver_task(broker, receiver_cls=<capture>, **api_kwargs)`
+    builds its Receiver; the keyword arguments it passes are returned (minus broker / executor / on_exit, which
+    belong to that call).  api_kwargs uses run_receiver_task's own parameter names (ack_time, max_async_tasks, ...)."""
+    from taskiq.api.receiver import run_receiver_task
+
+    _CaptureOnce.captured = None
+    loop = real_asyncio.new_event_loop()
+    try:
+        try:
+            loop.run_until_complete(run_receiver_task(broker, receiver_cls=_CaptureOnce, **api_kwargs))
+        except real_asyncio.CancelledError:
+            pass
+    finally:
+        loop.close()
+    kw = dict(_CaptureOnce.captured or {})
+    if not kw:
+        raise RuntimeError("run_receiver_task did not construct the receiver")
+    for k in ("executor", "broker", "on_exit", "run_startup"):
+        kw.pop(k, None)
+    return kw
